@@ -196,14 +196,15 @@ func (idx *KVIndex) RemoveDoc(docID string) error {
 			return fmt.Errorf("failed to unmarshal document: %v", err)
 		}
 		for _, entryKey := range doc.Entries {
-			err = tx.Delete(entryKey)
-			if err != nil {
-				return fmt.Errorf("failed to delete entry %s: %v", entryKey, err)
-			}
-
 			field, ttype, term, _ := EntryKeyParse(entryKey)
 			termKey := TermKey(field, ttype, term)
-			if count, err := idx.termGetCount(tx, field, ttype, term); err == nil {
+			// read the count while the entry is still stored: a recount (cached
+			// count 0) has to include the entry that is subtracted below
+			count, err := idx.termGetCount(tx, field, ttype, term)
+			if derr := tx.Delete(entryKey); derr != nil {
+				return fmt.Errorf("failed to delete entry %s: %v", entryKey, derr)
+			}
+			if err == nil {
 				if count > 0 {
 					count = count - 1
 				}
